@@ -437,7 +437,21 @@ class Tree_getitem(Contract):
             item = SObj("slice", {"start": cx.int("lo", lo=0), "stop": cx.int("hi", lo=0), "step": None}, fresh=False, label="slice")
         return {"self": s, "item": item}
 
+    # call-site direction (selector contracts): the item is a tree determined by the receiver and the index expression
+    def may_raise(self, cx, a):
+        return [("IndexError", None), ("StepException", None)]
+
+    def fresh_result(self, cx, a):
+        from pyvc.builtins import Builtins
+        item = a["item"]
+        iid = item.ident if getattr(item, "ident", None) is not None else Builtins(None).ident_term(item)
+        t = SObj("DerivationTree", {}, fresh=False, label="item")
+        t.ident = ItemOf(a["self"].ident, iid)
+        return t
+
     def ensures(self, cx, a, r):
+        if cx.ghost.get("call_site"):
+            return []
         s = a["self"]
         kids = s.fields["_children"]
         j = z3.Int(cx._name("cj"))
@@ -455,6 +469,7 @@ class Tree_getitem(Contract):
 # ------------------------------------------------------------------------------------------------ replace_multiple
 
 PathExt = z3.Function("PathExt", I, I, I, I)      # path, kind of step (0 child / 1 source), index -> path
+ItemOf = z3.Function("ItemOf", I, I, I)             # (tree, index expression) -> identity of tree[index expression]
 ReplacementAt = z3.Function("ReplacementAt", I, I)  # path -> identity of the replacement tree registered for it
 ReplacedOf = z3.Function("ReplacedOf", I, I)        # node -> identity of the tree the recursive replace_multiple returns for it
 SymOfTree = z3.Function("SymOfTree", I, I)         # tree identity -> identity of its symbol
